@@ -46,7 +46,8 @@ def examples(tier):
 def strategy(draw, tier="quick"):
     kind = draw(st.sampled_from(["perm", "dead", "split", "similarity", "eps", "rescale", "perturb", "perturb", "perturb", "none", "none", "newsym", "deadsym"]))
     special = draw(st.integers(0, 11))
-    m = draw(gen.automaton(regime="QQ", max_states=4, max_arcs=7, pool="int", boost=(special > 2)))
+    big = draw(st.integers(0, 5)) == 0
+    m = draw(gen.automaton(regime="QQ", max_states=6 if big else 4, max_arcs=10 if big else 7, pool="int", boost=(special > 2)))
     # dyadic weights for pairs, tenths for single automata
     dy = ["1/8", "1/4", "3/8", "1/2", "5/8", "3/4", "1"]
     te = ["1/10", "1/5", "3/10", "2/5", "1/2", "7/10"]
